@@ -55,6 +55,9 @@ impl RawConnector {
             scorer_builder,
         } = RawConnectorBuilder::from_readers(right_rdr, left_rdr, cost_rdr)?;
 
+        // The number of feature templates before padding.
+        let num_templates = feat_template_size;
+
         // Adjusts to a multiple of SIMD_SIZE for AVX2 compatibility.
         //
         // In nightly: feat_template_size = feat_template_size.next_multiple_of(SIMD_SIZE);
@@ -71,9 +74,11 @@ impl RawConnector {
         let mut left_feat_ids =
             vec![INVALID_FEATURE_ID; (left_feat_ids_tmp.len() + 1) * feat_template_size];
 
-        // The first row reserved for BOS/EOS is always an empty row with zero values.
-        right_feat_ids[..feat_template_size].fill(U31::default());
-        left_feat_ids[..feat_template_size].fill(U31::default());
+        // The first row reserved for BOS/EOS holds the empty feature (zero) at every template
+        // position. The padding lanes stay invalid like those of the other rows; otherwise
+        // they would each add the cost of the pair of empty features.
+        right_feat_ids[..num_templates].fill(U31::default());
+        left_feat_ids[..num_templates].fill(U31::default());
 
         for (trg, src) in right_feat_ids[feat_template_size..]
             .chunks_mut(feat_template_size)
